@@ -30,10 +30,10 @@ POSITIONS = ["first", "last"]
 class Faulty(StreamRun):
     prop = "C18"
 
-    def __init__(self, frontend, fault, position, n=2, contexts=1, canary=None):
+    def __init__(self, frontend, fault, position, n=2, contexts=1, canary=None, wbound="timestamp"):
         axes = () if fault == "input_not_supplied" else ("z",)
         StreamRun.__init__(self, frontend, n, ("closed",) * contexts, axes=axes, streams=1 if frontend in ("numpy", "qcconfig") else 2,
-                           tests=("probe_test", "spike_test"), prop="C18")
+                           tests=("probe_test", "spike_test"), prop="C18", wbound=wbound)
         self.fault, self.position = fault, position
         self.canary = canary
         self.name = f"fault[{fault}@{position}] {self.name}" + (f" CANARY={canary}" if canary else "")
@@ -114,7 +114,7 @@ class Faulty(StreamRun):
         return d, l
 
     def invoke(self, mods, S, K):
-        K = _StreamKit(K)
+        K = _StreamKit(K, wbound=self.wbound)
         q = mods.qartod
         install_probe(q)
         exec(RAISER_SRC, q.__dict__)
@@ -314,6 +314,10 @@ def jobs(tier):
         if tier == "thorough":
             out.append(Faulty(fe, "raises_on_data", "first", n=3, contexts=2))
             out.append(Faulty(fe, "unknown_test", "last", n=3, contexts=2))
+    # window bounds written as ISO text / numpy.datetime64 (real-stack side of the replays)
+    for fe, wb in (("numpy", "iso"), ("pandas", "datetime64"), ("xarray", "iso"), ("netcdf", "datetime")):
+        out.append(Faulty(fe, "missing_param", "first", wbound=wb))
+        out.append(Faulty(fe, "raises_on_data", "last", wbound=wb))
     out.append(XarrayMixedDims(2, "v0_first"))
     out.append(XarrayMixedDims(2, "v1_first"))
     out.append(Faulty("pandas", "raises_on_data", "first", canary="flip"))
